@@ -1,41 +1,38 @@
 """C17 — findings are a function of the sources (deterministic, order independent).
 
-Proof side: coq/props/C17.v.  Over Model.Runner: the displayed multiset, exit
-status and SARIF content are the same for every order in which the name maps
-are iterated and every set of lookups; the order in which parse_files'
-HashMap<FileID, ..> is iterated is irrelevant unless two sources share a name
-(known finding D22).  Over Model.RunnerSrc (the source level on top of it, in
-which the pass results of a definition are a FUNCTION of the answers to the
-lookups its passes make): the findings of a definition are unchanged when
-definitions it does not look up are added, removed or reordered, and the
-statement without that hypothesis is refuted.  Over Model.Desugar: the two
-HashMap loops of remove_syntactic_sugar give the same result for every
-iteration order.
+Proof side: coq/props/C17.v (19 obligations).  Over Model.Runner: the displayed
+multiset, exit status and SARIF content are the same for every order in which
+the name maps are iterated and every set of lookups; FileIDs are names.  Over
+Model.RunnerLib (the code after the repair of D22): the order in which
+parse_files' HashMap<FileID, ..> is iterated is irrelevant, duplicated names
+included.  Over Model.RunnerSrc (the pass results of a definition are a
+FUNCTION of the answers to the lookups its passes make - an assumption):
+whole-project findings are unchanged when definitions nobody looks up are
+added, removed or reordered; refuted without that hypothesis.  Over
+Model.Desugar: the two HashMap loops of remove_syntactic_sugar.
 
-What this engine adds (the tie to the code and the orders inside the stages):
+What this engine does (third audit: see design.d/C17.md):
 
- * the real binary: every project is run >= 8 times in fresh processes (fresh
-   random hasher state each), with the definitions of each file permuted, the
-   files given in another order, unreferenced definitions added / removed,
-   and REFERENCED definitions changed (outputs, body only, inputs and parameters
-   only, removed, made to fail), and the normalised finding multisets are compared per definition;
- * harness `c17 deps`: the REAL AnalysisRunner, driven as analyze_template does
-   but with a recording wrapper between the passes and the runner: which
-   definitions every analysis looked up, and what it was answered.  With that
-   the check is made per definition and per case: findings may change only if
-   a looked-up (or anonymously instantiated) definition changed - and when only
-   a looked-up one changed, only the findings of the passes that RECEIVE the
-   context (read from get_analysis_passes on every run: unused_output_signal,
-   CS0018) - and findings grouped by (own source text, answers to the lookups)
-   must coincide — the assumption built into the type of Model.RunnerSrc.s_pass.
-   How many groups can tell is recorded (function_of_source_and_answers_groups)
-   and fewer than 5 discriminating ones is a violation; a panic of the runner
-   under `deps` is a failure of that project, not a skipped check.  For small
-   projects ALL analysis orders are driven through the real runner's caches;
- * harness `c17 orders`: the complete pipeline of main.rs repeated in process
-   in fresh threads (= fresh hasher keys for every HashMap of every stage), so
-   that many more hash states are sampled per case than processes can be
-   spawned; the iteration orders actually seen are counted."""
+ (0) evaluates the hypotheses of the theorems per case (runner maps against the
+     sources, analysis order of every run, structures, unreferenced extras);
+ (1) harness `c17 allorders`: the REAL analyze_functions / analyze_templates
+     under EVERY order of the two name maps of small projects (fresh threads
+     until every permutation was iterated); (1b) `c17 deps` with all orders of
+     take / passes / replace: the answers to the lookups;
+ (2) the real binary in fresh processes (>= 8 per project: unchanged,
+     definitions / files permuted, definitions / files added and removed,
+     referenced definitions changed; --curve and -L as generated) and harness
+     `c17 orders` (the pipeline of main.rs in fresh threads): normalised finding
+     multisets compared per definition; a definition may change only through
+     what it looks up (recorded by `c17 deps`) or instantiates anonymously, and
+     through a lookup only in the findings of passes observed to ask questions;
+ (3) findings grouped by (own source, lookups with answers) coincide — the
+     interface assumed by Model.RunnerSrc (a difference is a failing input when
+     all sources agree, a no-input violation naming the interface otherwise);
+ (4) the witness of C17_referenced_definition_matters on the real code;
+ (5) duplicated names: deterministic, and analysed like the project without
+     the later definitions (Model.RunnerLib's oracle; no carve-out);
+ (6) the extracted Model.Runner (engine e2e) against the binary."""
 import copy
 import itertools
 import json
@@ -70,8 +67,14 @@ OWNER_LINE = re.compile(r"^\w+ (template|function) [`'\"]?([A-Za-z_$][A-Za-z_$0-
 CURVES = ["BN254", "BN254", "BLS12_381", "GOLDILOCKS"]
 
 
+LINE_IN_MSG = re.compile(r"\b(lines?|columns?|cols?) \d+", re.I)
+POS_IN_MSG = re.compile(r":\d+:\d+\b")
+
+
 def norm_msg(msg, pdir):
+    """the property allows findings to differ in line numbers: positions spelled out in a MESSAGE are normalised too"""
     msg = (msg or "").replace(pdir, "<dir>")
+    msg = POS_IN_MSG.sub(":#:#", LINE_IN_MSG.sub(r"\1 #", msg))
     return GEN_NAME.sub(r"\1_#_#", msg)
 
 
@@ -815,8 +818,8 @@ def run(ctx, proofs):
     common.build_harness("c17")
     base = e2e.scratch_dir("C17")
     try:
-        nproj = 150 if quick else 1000
-        nbig = 3 if quick else 12
+        nproj = 150 if quick else 750            # thorough: 1000 structures took 18.6 min at load 60 (third audit: more variants)
+        nbig = 3 if quick else 8
         extra_same = 0 if quick else 8          # more fresh processes per case in thorough
         reps = 8 if quick else 32               # in-process repetitions (fresh thread = fresh hasher keys) of every base project
         reps_variant = 6 if quick else 8        # ... and of every other distinct project text
@@ -926,7 +929,8 @@ def run(ctx, proofs):
         # ---- (0) the hypotheses of the theorems, evaluated per case on the sources and on the runner's maps
         hyp = {"KF_duplicate_definition_on_sources": {"cases": 0, "with_duplicated_names": 0},
                "wf_project_runner_maps": {"cases": 0, "unmet": 0}, "analysis_order": {"cases": 0, "unmet": 0},
-               "wf_sproject_structures": {"cases": wf_s_cases, "unmet": wf_s_unmet}}
+               "wf_sproject_structures": {"cases": wf_s_cases, "unmet": wf_s_unmet},
+               "unreferenced_extra_definitions": {"cases": 0, "unmet": 0}}
         dup_of = {}
         for i in distinct:
             dn = duplicated_names(projects[i])
@@ -1123,6 +1127,18 @@ def run(ctx, proofs):
                 B = texts[i]
                 infl_b, lk_b = influencers(i) if not is_corpus else ({}, {})
                 ign = changed_files(projects[ref_i], projects[i])
+                if kind in ("definitions-added", "file-added", "definitions-removed", "file-removed") and not is_corpus:
+                    # the hypothesis of C17_unreferenced_definitions_irrelevant / C17_included_definitions_irrelevant, evaluated with
+                    # the lookups the real runner recorded: no definition common to both projects looks up (or instantiates
+                    # anonymously) a definition that only one of them has
+                    only_one = {o[1] for o in set(A) ^ set(B)}
+                    hyp["unreferenced_extra_definitions"]["cases"] += 1
+                    refs_to = [o for o in set(A) & set(B) if (infl_a.get(o, set()) | infl_b.get(o, set())) & only_one]
+                    if refs_to:
+                        hyp["unreferenced_extra_definitions"]["unmet"] += 1
+                        broken.append({"project": projects[ref_i].describe(), "variant": projects[i].describe(), "kind": "generator",
+                                       "what": "variant `%s` was built to add / remove definitions nobody references, but %s references "
+                                               "one of %s" % (kind, " ".join(refs_to[0]), sorted(only_one)[:6])})
                 fams = [("binary", ref, got)]
                 if rep_of[i] in inproc and rep_of[ref_i] in inproc and rep_of[i] != rep_of[ref_i]:
                     fams.append(("in-process", inproc[rep_of[ref_i]], inproc[rep_of[i]]))
@@ -1445,7 +1461,8 @@ def run(ctx, proofs):
             "open_statements": [
                 "orders inside SSA construction, dominator trees, taint maps, declaration maps and the HashMap loops of the passes "
                 "(e.g. under_constrained_signals): no model, no theorem; sampled by the repeated runs",
-                "FileID / element-id numbering when files are given in another order: C17_file_order_irrelevant keeps d_file fixed",
+                "FileID renumbering is covered over Model.Runner only (C17_file_ids_are_names: report payloads are opaque there); the "
+                "element ids that TemplateLibrary::new / the Merger thread through their loops have no model",
                 "`beyond line numbers`: the normalisation of positions and generated names is Python, not a theorem",
                 "anonymous instantiation as a reference (desugaring copies the callee's signals): s_refs of Model.RunnerSrc holds "
                 "looked-up names only; the check treats anonymously instantiated templates as references (compare, check (3))",
